@@ -65,6 +65,7 @@ def check(case):
             return r
     maxlit = opts["max_literals"]
     pyd = fw in ("pydantic", "sqlmodel")
+    base_gens = {}
     for m in b.reg.models:
         cls = v.cls_of[m.index]
         hints = v.ld.hints[cls]
@@ -90,6 +91,21 @@ def check(case):
             used.add(f.name)
             if not oracle.name_ok_for_key(f.name, key):
                 r.fail("field-name-not-derived-from-key", f"{cls.__name__}: {key!r} -> {f.name}\n{src}")
+            # the sanitised name is a function of the key (and the unicode option), not of the framework: it must be the
+            # name the plain generator gives the same key; the one documented exception is sqlmodel's id / pk
+            if fw != "base" and not (fw == "sqlmodel" and key in ("id", "pk")):
+                if base_gens.get(m.index) is None:
+                    try:
+                        base_gens[m.index] = pl.GENS["base"](m, convert_unicode=opts["unicode"])
+                    except Exception:  # noqa: BLE001
+                        base_gens[m.index] = False
+                if base_gens[m.index]:
+                    try:
+                        bn = base_gens[m.index].convert_field_name(key)
+                    except Exception:  # noqa: BLE001
+                        bn = None
+                    if bn is not None and bn != f.name:
+                        r.fail("field-name-differs-across-frameworks", f"{cls.__name__}: key {key!r} is {f.name!r} under {fw} but {bn!r} under base\n{src}")
             if f.name != key:
                 r.nontrivial = True
                 if pyd and f.key != key:
